@@ -151,9 +151,27 @@ func runWhitelists(c *Ctx, p *wlPatch) error {
 	}
 	// Coq term
 	d := lib.NewPathDict()
-	rs := make([]string, len(runs))
+	// the model evaluates the full run and at most modelRuns whitelisted runs (the empty set,
+	// the full set, then every k-th); the oracle above has judged all of them
+	const modelRuns = 9
+	inModel := map[int]bool{0: true}
+	if len(runs)-1 <= modelRuns {
+		for i := range runs {
+			inModel[i] = true
+		}
+	} else {
+		inModel[1], inModel[len(runs)-1] = true, true
+		step := (len(runs) - 1) / (modelRuns - 2)
+		for i := 1 + int(c.Seed)%step; i < len(runs); i += step {
+			inModel[i] = true
+		}
+	}
+	var rs []string
 	obsRuns := make([]map[string]interface{}, 0, len(runs))
 	for i, r := range runs {
+		if !inModel[i] {
+			continue
+		}
 		wl := "None"
 		if r.hasWl {
 			zs := make([]string, len(r.wl))
@@ -170,7 +188,7 @@ func runWhitelists(c *Ctx, p *wlPatch) error {
 		if r.cls == "ok" {
 			files = coqRleList(r.files)
 		}
-		rs[i] = fmt.Sprintf("(%s, (%s, %s, %s, %s))", wl, lib.CoqZ(classCode(r.cls)), lib.CoqZ(r.touched), lib.CoqList(evs), files)
+		rs = append(rs, fmt.Sprintf("(%s, (%s, %s, %s, %s))", wl, lib.CoqZ(classCode(r.cls)), lib.CoqZ(r.touched), lib.CoqList(evs), files))
 		if len(obsRuns) < 12 {
 			es := make([]string, len(r.events))
 			for k, e := range r.events {
@@ -411,7 +429,7 @@ func compOf(dp *lib.DecodedPatch) string { return fmt.Sprintf("%s-q%d", dp.Algo,
 
 func c17Real(c *Ctx) error {
 	r := c.Rng.Fork()
-	n := c.N(12, 150)
+	n := nFor(c, 12, 150, 10)
 	for i := 0; i < n; i++ {
 		cr := r.Fork()
 		maxSize := 2*lib.BS + 17
@@ -462,10 +480,19 @@ func c17Corpus(c *Ctx) error {
 
 func c17Crafted(c *Ctx) error {
 	r := c.Rng.Fork()
-	n := c.N(24, 400)
+	corpus := craftCorpus()
+	n := nFor(c, 10, 400, 300) + len(corpus)
 	for i := 0; i < n; i++ {
 		cr := r.Fork()
-		cf := genCraft(cr)
+		var cf *craft
+		if i < len(corpus) {
+			cf = corpus[i]
+			if len(cf.files) < 2 { // a single series says little about skipping
+				continue
+			}
+		} else {
+			cf = genCraft(cr)
+		}
 		name := fmt.Sprintf("c17-craft-%d", i)
 		base := filepath.Join(c.Tmp, name)
 		oldDir := filepath.Join(base, "old")
@@ -503,7 +530,7 @@ func c17Crafted(c *Ctx) error {
 
 func c17Reinterp(c *Ctx) error {
 	r := c.Rng.Fork()
-	n := c.N(300, 4000)
+	n := nFor(c, 300, 4000, 1000)
 	interesting := []int64{0, 1, 2, 3, 2049, 2048, 2050, -1, 1 << 31, 1<<31 - 1, 1<<32 + 2049, -(1 << 31), 1<<63 - 1, -(1 << 63), 16, 255, 256}
 	pick := func(cr *lib.Rng) int64 {
 		switch cr.Intn(4) {
